@@ -1,6 +1,7 @@
 import FastraceModel.Model.Report.Jaeger
 import FastraceModel.Model.Report.Datadog
 import FastraceModel.Model.Report.Otel
+import FastraceModel.Lemmas.JaegerDec
 import FastraceModel.Driver.Util
 namespace Fastrace.Driver
 open Fastrace
@@ -40,6 +41,12 @@ def parseRecords (s : String) : Option (List Record) :=
 def hexOfNats (b : List Nat) : String :=
   String.ofList (b.flatMap fun x => [nibChar (x / 16 % 16), nibChar (x % 16)])
 
+def showJView (v : Jaeger.JView) : String :=
+  let tags (l : List (List Nat × List Nat)) : String :=
+    if l.isEmpty then "_" else "&".intercalate (l.map fun kv => s!"{hexOfNats kv.1}={hexOfNats kv.2}")
+  let logs := if v.logs.isEmpty then "_" else "|".intercalate (v.logs.map fun l => s!"{hexOfNat l.1}@{tags l.2}")
+  s!" {hexOfNat v.traceHigh}:{hexOfNat v.traceLow},{hexOfNat v.spanId},{hexOfNat v.parentId},{hexOfNats v.name},{v.flags},{hexOfNat v.startUs},{hexOfNat v.durUs},{tags v.tags},{logs}"
+
 def reportStep (line : String) : String :=
   match words line with
   | ["jaeger", svc, recs] =>
@@ -66,6 +73,18 @@ def reportStep (line : String) : String :=
           "|".intercalate (d.events.map fun e => s!"{hexOfStr e.name}@{tm e.time}@{kvs e.attrs}")
         s!" {hexOfNats d.traceId},{hexOfNats d.spanId},{hexOfNats d.parentId},{tm d.start},{tm d.finish},{hexOfStr d.name},{kvs d.attrs},{evs}")
     | none => "bad-op"
+  | ["jdec", hex] =>
+    -- the *proved* decoder (`C19_jaeger_roundtrip`) applied to bytes from the real reporter
+    match bytesOfHex hex with
+    | none => "bad-op"
+    | some b =>
+      match Jaeger.decodeBatch (b.toList.map (·.toNat)) with
+      | none => "jv undecodable"
+      | some (svc, vs) => "jv " ++ hexOfNats svc ++ String.join (vs.map showJView)
+  | ["jview", svc, recs] =>
+    match strOfHex svc, parseRecords recs with
+    | some svc, some rs => "jv " ++ hexOfNats (Jaeger.strBytes svc) ++ String.join (rs.map fun r => showJView (Jaeger.jaegerView r))
+    | _, _ => "bad-op"
   | _ => "bad-op"
 
 end Fastrace.Driver
